@@ -245,14 +245,15 @@ theorem dtypePeek_frame (ms : List RMap) (h : RHeap) (stream : List PVal) :
   | nil => exact ⟨Ext.refl h, LogOk.nil _⟩
   | cons r rs => exact applyMaps_frame ms h r
 
-theorem iterAll_frame (ms : List RMap) (drop : Bool) (stream : List PVal) : ∀ (h : RHeap),
-    Ext h (iterAll ms drop h stream).heap ∧ LogOk h.own.length (iterAll ms drop h stream).log := by
+theorem iterAll_frame (fs : List RFilt) (ms : List RMap) (stream : List PVal) : ∀ (h : RHeap),
+    Ext h (iterAll fs ms h stream).heap ∧ LogOk h.own.length (iterAll fs ms h stream).log := by
   induction stream with
   | nil => intro h; exact ⟨Ext.refl h, LogOk.nil _⟩
   | cons r rs ih =>
     intro h
     simp only [iterAll]
     split
+    · exact ⟨Ext.refl h, LogOk.nil _⟩
     · exact ih h
     · have a := applyMaps_frame ms h r
       split
@@ -260,10 +261,10 @@ theorem iterAll_frame (ms : List RMap) (drop : Bool) (stream : List PVal) : ∀ 
       · have b := ih (applyMaps ms h r).heap
         exact ⟨Ext.trans a.1 b.1, LogOk.append a.2 (LogOk.mono a.1.len b.2)⟩
 
-theorem serveRows_frame (ms : List RMap) (drop : Bool) (stream : List PVal) (k : Nat) : ∀ (h : RHeap),
-    Ext h (serveRows ms drop h stream k).heap ∧ LogOk h.own.length (serveRows ms drop h stream k).log := by
+theorem serveRows_frame (fs : List RFilt) (ms : List RMap) (stream : List PVal) (k : Nat) : ∀ (h : RHeap),
+    Ext h (serveRows fs ms h stream k).heap ∧ LogOk h.own.length (serveRows fs ms h stream k).log := by
   induction k with
-  | zero => intro h; exact iterAll_frame ms drop stream h
+  | zero => intro h; exact iterAll_frame fs ms stream h
   | succ k ih =>
     intro h
     have a := dtypePeek_frame ms h stream
@@ -296,17 +297,17 @@ def emitRows (t : Nat) (log : List Store) : Step GLoc RVal RVal String :=
 
 /-- request `t` evaluating its maps over the source records of the served sequence (its own region empty at
     the start): the stores it reaches, then the emission -/
-def rowProgram (src : List PObj) (stream : List PVal) (maps : List RMap) (drop : Bool) (peeks : Nat) (t : Nat) :
+def rowProgram (src : List PObj) (stream : List PVal) (filts : List RFilt) (maps : List RMap) (peeks : Nat) (t : Nat) :
     List (Step GLoc RVal RVal String) :=
-  let o := serveRows maps drop ⟨src, []⟩ stream peeks
+  let o := serveRows filts maps ⟨src, []⟩ stream peeks
   o.log.map (Store.toStep t) ++ [emitRows t o.log]
 
-theorem rowProgram_writes_owned (src : List PObj) (stream : List PVal) (maps : List RMap) (drop : Bool)
-    (peeks t : Nat) : ∀ s ∈ rowProgram src stream maps drop peeks t, ∀ l ∈ s.writes, l.1 = some t := by
+theorem rowProgram_writes_owned (src : List PObj) (stream : List PVal) (filts : List RFilt) (maps : List RMap)
+    (peeks t : Nat) : ∀ s ∈ rowProgram src stream filts maps peeks t, ∀ l ∈ s.writes, l.1 = some t := by
   intro s hs l hl
   simp only [rowProgram, List.mem_append, List.mem_map, List.mem_singleton] at hs
   rcases hs with ⟨st, hst, rfl⟩ | rfl
-  · have := (serveRows_frame maps drop stream peeks ⟨src, []⟩).2 st hst
+  · have := (serveRows_frame filts maps stream peeks ⟨src, []⟩).2 st hst
     obtain ⟨i, hi, _⟩ := this
     simp only [Store.toStep, List.mem_singleton] at hl
     subst hl
@@ -316,8 +317,8 @@ theorem rowProgram_writes_owned (src : List PObj) (stream : List PVal) (maps : L
 theorem gloc_owner (t : Nat) (l : Loc) : (gloc t l).1 = some t ∨ (gloc t l).1 = none := by
   cases l <;> simp [gloc]
 
-theorem rowProgram_reads (src : List PObj) (stream : List PVal) (maps : List RMap) (drop : Bool)
-    (peeks t : Nat) : ∀ s ∈ rowProgram src stream maps drop peeks t, ∀ l ∈ s.reads, l.1 = some t ∨ l.1 = none := by
+theorem rowProgram_reads (src : List PObj) (stream : List PVal) (filts : List RFilt) (maps : List RMap)
+    (peeks t : Nat) : ∀ s ∈ rowProgram src stream filts maps peeks t, ∀ l ∈ s.reads, l.1 = some t ∨ l.1 = none := by
   intro s hs l hl
   simp only [rowProgram, List.mem_append, List.mem_map, List.mem_singleton] at hs
   rcases hs with ⟨st, _, rfl⟩ | rfl
@@ -329,18 +330,18 @@ theorem rowProgram_reads (src : List PObj) (stream : List PVal) (maps : List RMa
     exact gloc_owner t x
 
 /-- any family of requests, each with its own maps, evaluated over one served source, is disciplined -/
-theorem rows_disciplined (src : List PObj) (stream : List PVal) (maps : Nat → List RMap) (drop : Nat → Bool)
+theorem rows_disciplined (src : List PObj) (stream : List PVal) (filts : Nat → List RFilt) (maps : Nat → List RMap)
     (peeks : Nat → Nat) :
-    Disciplined (fun l : GLoc => l.1) (fun t => rowProgram src stream (maps t) (drop t) (peeks t) t) := by
+    Disciplined (fun l : GLoc => l.1) (fun t => rowProgram src stream (filts t) (maps t) (peeks t) t) := by
   refine ⟨?_, ?_⟩
   · intro t s hs l hl
-    exact rowProgram_writes_owned src stream (maps t) (drop t) (peeks t) t s hs l hl
+    exact rowProgram_writes_owned src stream (filts t) (maps t) (peeks t) t s hs l hl
   · intro t s hs l hl
-    rcases rowProgram_reads src stream (maps t) (drop t) (peeks t) t s hs l hl with h | h
+    rcases rowProgram_reads src stream (filts t) (maps t) (peeks t) t s hs l hl with h | h
     · exact Or.inl h
     · right
       intro u s' hs' hw
-      have := rowProgram_writes_owned src stream (maps u) (drop u) (peeks u) u s' hs' l hw
+      have := rowProgram_writes_owned src stream (filts u) (maps u) (peeks u) u s' hs' l hw
       rw [h] at this
       cases this
 
